@@ -41,11 +41,11 @@ CHECKS = {
                 note="The planner (ref/layout_rules.h) is written from the property text; frames without messages are C07's business.",
                 technique="bounded exhaustive enumeration of encoder executions compared with an executable reference model of the layout rules"),
     "C09": dict(level="model_checking", design="4/C09",
-                text="All histories up to depth 5 (quick) / 7 (thorough) over a 14-operation alphabet explored as a tree of copied real Encoder objects, every prefix judged against a counter/identity model; plus dedicated histories that wrap the 16-bit counter inside and across calls.",
-                note="Alphabet: 2 device ids, 2 stream ids, restart, 9 (batch,context,version) triples chosen to differ in every piece of carried encoder state, two of them from another one in the version only.",
+                text="All histories up to depth 5 (quick) / 7 (thorough) over a 15-operation alphabet explored as a tree of copied real Encoder objects, every prefix judged against a counter/identity model; plus dedicated histories that wrap the 16-bit counter inside and across calls.",
+                note="Alphabet: 2 device ids, 2 stream ids, restart, 10 (batch,context,version) triples chosen to differ in every piece of carried encoder state, two of them from another one in the version only.",
                 technique="explicit-state exploration of all operation sequences up to a depth on the real object, lock-step with a reference model"),
     "C10": dict(level="model_checking", design="4/C10",
-                text="For every history up to depth 4 (quick) / 6 (thorough) and every final (batch,context,version) of a 14-element set the frames of the used real Encoder are compared byte for byte (modulo a constant counter offset) with those of a fresh Encoder with the same ids; runs under ASan/UBSan in a fork sandbox so crashes caused by leftover state are outcomes.",
+                text="For every history up to depth 4 (quick) / 6 (thorough) and every final (batch,context,version) of a 15-element set the frames of the used real Encoder are compared byte for byte (modulo a constant counter offset) with those of a fresh Encoder with the same ids; runs under ASan/UBSan in a fork sandbox so crashes caused by leftover state are outcomes.",
                 note="Purely differential: no model involved.",
                 technique="explicit-state exploration of all operation sequences up to a depth, differential oracle (used vs fresh object)"),
     "C05": dict(level="model_checking", design="4/C05",
@@ -57,7 +57,7 @@ CHECKS = {
                 note="'Random beyond the bound' of the quantifier text is deliberately not done (sampling is a different family); the completed bound is reported.",
                 technique="exhaustive fault-sequence enumeration up to a bound on the real decoder"),
     "C17": dict(level="model_checking", design="4/C17",
-                text="71-symbol state-relative frame alphabet over 4 endpoints: unmerged tree of copied real Decoders (depth 3 quick / 4 thorough; depth 5 / 6 over a sharp 17-symbol sub-alphabet) and BFS (depth 9 / 11) merged on (model state, dump of the decoder's pending table); after every transition the set of endpoints with pending data must equal the set of open messages and buffered bytes must not exceed header + declared segment bytes received.",
+                text="74-symbol state-relative frame alphabet over 4 endpoints: unmerged tree of copied real Decoders (depth 3 quick / 4 thorough; depth 5 / 6 over a sharp 18-symbol sub-alphabet) and BFS (depth 9 / 11) merged on (model state, dump of the decoder's pending table); after every transition the set of endpoints with pending data must equal the set of open messages and buffered bytes must not exceed header + declared segment bytes received.",
                 note="Uses the guarded read-only hook Decoder::verifPending(); a header-only frame is modelled as carrying nothing.",
                 technique="explicit-state model checking (tree + BFS with state merging) of the real decoder against a reference model; invariant checked in every state"),
     "C18": dict(level="model_checking", design="4/C18",
@@ -93,11 +93,11 @@ CHECKS = {
                 note="DLC is only constrained for representable lengths.",
                 technique="bounded exhaustive enumeration of builder inputs x prior object contents with independent layout oracle and fresh-object differential"),
     "C14": dict(level="model_checking", design="4/C14",
-                text="All ordered (source, target) pairs of a 27-packet pool (payload-less, zero-length payloads, equal-looking, one member per single-field difference, typed, decoder-produced) x copy/move construction and assignment, self assignments, all two-assignment sequences, equality laws on all pairs; the same for 13 Payload and 10 TECMP::Payload objects; observation through all getters under ASan in forked workers.",
+                text="All ordered (source, target) pairs of a 29-packet pool (payload-less, zero-length payloads, equal-looking, one member per single-field difference, typed, decoder-produced) x copy/move construction and assignment, self assignments, all two-assignment sequences, equality laws on all pairs; the same for 19 Payload and 10 TECMP::Payload objects; observation through all getters under ASan in forked workers.",
                 note="Equality must agree with field-by-field comparison only for non-empty payloads (as the property states).",
                 technique="exhaustive enumeration of object pairs x value operations (2-step histories) on the real classes"),
     "C16": dict(level="model_checking", design="4/C16",
-                text="31-operation alphabet over 3 devices x 2 interfaces x 2 message variants: unmerged tree of copied real Status objects to depth 4 (quick) / 5 (thorough), every prefix judged, plus BFS merged on the full ordered observable state run to its fixpoint (all 109 591 reachable states of the alphabet); after every operation counts, lookups by id and every getter/byte of every stored packet are compared with a latest-message map.",
+                text="34-operation alphabet over 3 devices x 2 interfaces x 2 message variants (incl. data packets and status messages of other kinds, which must change nothing): unmerged tree of copied real Status objects to depth 4 (quick) / 5 (thorough), every prefix judged, plus BFS merged on the full ordered observable state run to its fixpoint (all 109 591 reachable states of the alphabet); after every operation counts, lookups by id and every getter/byte of every stored packet are compared with a latest-message map.",
                 note="Vector order is not constrained; 'random beyond the bound' is not done (the completed bound is reported).",
                 technique="explicit-state model checking (operation-sequence tree + BFS with state merging) of the real object against a reference model"),
     "C20": dict(level="model_checking", design="4/C20",
